@@ -18,6 +18,7 @@ static Profile profile_for(const std::string &p) { Profile f;
   else if (p == "C12") { add(regs, 3); add({OP_SET, OP_GET, OP_EVAL, OP_INITP, OP_SETVEC, OP_CSET, OP_CINIT}, 2); f.audit = true; f.fresh = false; }
   else if (p == "C15") { add({OP_INIT}, 3); add({OP_SELECT}, 1); add({OP_EVAL}, 14); add({OP_SET}, 1); f.fresh = false; }
   else if (p == "C17") { add(cops, 2); add({OP_INIT, OP_SELECT, OP_SET, OP_SETVEC, OP_PURGE, OP_INITP}, 1); f.fixtures = true; f.fresh = false; f.cface = true; }
+  else if (p == "C16") { add(regs, 2); add({OP_SET, OP_GET, OP_EVAL, OP_SETVEC, OP_CSET, OP_CINIT, OP_PURGE}, 1); add({OP_FATAL}, 6); f.audit = false; f.fresh = false; }
   else { add(regs); add(param); add(cops); add({OP_EVAL}, 4); f.fixtures = false; }    // "all": used by the sanitizer runs
   return f; }
 
@@ -32,6 +33,7 @@ static bool nontrivial(const std::string &prop, std::map<std::string, long> &c) 
   if (prop == "C11") return (c["set_invalid_name"] + c["get_invalid_name"] + c["set_vec_invalid_name"]) > 0 && (c["purge"] + c["init_param"]) > 0 && c["set_valid"] > 0;
   if (prop == "C12") return c["op:init"] + c["op:c:init"] >= 3 && c["reinit_existing_handle"] > 0 && c["two_handles_same_type"] > 0;
   if (prop == "C15") return c["eval_unprovided"] >= 3;
+  if (prop == "C16") return c["op:fatal-misuse"] >= 1 && c["fatal:after_nonempty_prefix"] >= 1;
   if (prop == "C17") return (c["c_set"] + c["c_get"] + c["c_eval_provided"] + c["c_set_array"] + c["c_get_name"]) >= 3 && (c["op:set_param"] + c["op:init"] + c["op:set_vec"]) >= 1;
   return true; }
 
@@ -41,11 +43,13 @@ int main(int argc, char **argv) {
   if (!freopen("/dev/null", "w", stdout)) {}
   if (const char *rf = arg_value(argc, argv, "--replay")) { std::ifstream f(rf); std::stringstream ss; ss << f.rdbuf(); std::vector<Op> ops; std::string prop; if (!history_from_text(ss.str(), ops, prop)) { fprintf(stderr, "not a history file\n"); return 2; }
     Profile pf = profile_for(prop); History H; H.cfg.catalogue = read_catalogue(); if (!pf.fixtures) H.cfg.catalogue.erase(std::remove_if(H.cfg.catalogue.begin(), H.cfg.catalogue.end(), [](const std::string &s) { return s == "masa_test_function" || s == "masa_uninit"; }), H.cfg.catalogue.end());
-    H.cfg.check_fresh = pf.fresh; H.cfg.audit_every_step = pf.audit; H.cfg.c_interface = true; H.run(ops); for (size_t i = 0; i < H.trace.size(); i++) fprintf(stderr, "  %3zu %s\n", i + 1, H.trace[i].c_str());
+    H.cfg.check_fresh = pf.fresh; H.cfg.audit_every_step = pf.audit; H.cfg.c_interface = true; H.cfg.fatal_mode = atoi(arg_value(argc, argv, "--fatal-mode", "0")); if (H.cfg.fatal_mode == 1) H.cfg.catalogue.erase(std::remove(H.cfg.catalogue.begin(), H.cfg.catalogue.end(), std::string("sod_1d")), H.cfg.catalogue.end()); H.run(ops); for (size_t i = 0; i < H.trace.size(); i++) fprintf(stderr, "  %3zu %s\n", i + 1, H.trace[i].c_str());
     bool mine = false; for (auto &fl : H.fails) { fprintf(stderr, "  FAIL[%s] at step %d: %s\n", fl.prop.c_str(), fl.step, fl.msg.c_str()); if (fl.prop == prop) mine = true; } fprintf(stderr, "REPLAY %s\n", mine ? "violation" : "pass"); return mine ? 1 : 0; }
   std::string prop = arg_value(argc, argv, "--prop", "C11"); uint64_t seed = strtoull(arg_value(argc, argv, "--seed", "1"), 0, 10); int cases = atoi(arg_value(argc, argv, "--cases", "100")); int maxsize = atoi(arg_value(argc, argv, "--maxsize", "100"));
   std::string faildir = arg_value(argc, argv, "--faildir", "."); stats().path = arg_value(argc, argv, "--out", ""); mkdir(faildir.c_str(), 0755); Stats &st = stats();
+  int fatal_mode = atoi(arg_value(argc, argv, "--fatal-mode", "0"));
   Profile pf = profile_for(prop); std::vector<std::string> cat = read_catalogue(); std::vector<std::string> use = cat; if (!pf.fixtures) use.erase(std::remove_if(use.begin(), use.end(), [](const std::string &s) { return s == "masa_test_function" || s == "masa_uninit"; }), use.end());
+  if (fatal_mode == 1) use.erase(std::remove(use.begin(), use.end(), std::string("sod_1d")), use.end());   // exit() build: sod's own fatal error on non-bracketing parameters would end the harness
   st.count("catalogue_entries", (long long)cat.size());
   long budget = -1; int failures = 0;
   rc::detail::TestParams tp; tp.seed = mix64(seed ^ 0x5eed); tp.maxSuccess = cases; tp.maxSize = maxsize; rc::detail::TestMetadata md; md.id = prop + ":histories"; md.description = md.id;
@@ -53,7 +57,7 @@ int main(int argc, char **argv) {
     auto raw = *rc::gen::container<std::vector<std::vector<uint64_t>>>(rc::gen::container<std::vector<uint64_t>>(6, rc::gen::resize(rc::kNominalSize, rc::gen::arbitrary<uint64_t>())));
     std::vector<Op> ops; for (auto &r : raw) ops.push_back(decode(r, pf, prop));
     write_file(faildir + "/current.case", history_to_text(ops, prop));
-    History H; H.cfg.catalogue = use; H.cfg.check_fresh = pf.fresh; H.cfg.audit_every_step = pf.audit; H.run(ops);
+    History H; H.cfg.catalogue = use; H.cfg.check_fresh = pf.fresh; H.cfg.audit_every_step = pf.audit; H.cfg.fatal_mode = fatal_mode; H.run(ops);
     st.count("cases"); st.count("steps", H.step); st.count("evaluations", H.step); st.count("evaluator_calls", H.evals);
     for (auto &kv : H.cls) st.count("class:" + kv.first, kv.second); if (ops.size() >= 20) st.count("class:H:length>=20");
     bool nt = nontrivial(prop, H.cls); if (nt) { st.count("class:H:nontrivial"); Hasher h; for (auto &o : ops) h.str(op_to_text(o)); st.distinct.insert(h.h); }
